@@ -369,6 +369,80 @@ impl<const IV: u64> Sys<IV> {
         format!("ret=ok acks={acks} dups={dups} other={other} reload={reload} multi={multi}")
     }
 
+    /// C07 / C18: `threads` workers send `rounds` distinct `put` commands each to ONE write-ahead-log entity through one
+    /// store object while another thread - with a store object of its own on the same namespace, like the scheduler's
+    /// snapshot task - keeps calling `update_snapshot` (snapshot written, change sets pruned).  Afterwards every
+    /// acknowledged command must be present exactly once in the live instance and in a freshly opened store, and the
+    /// revision must be the number of acknowledged commands.
+    fn race_wal(&self, threads: usize, rounds: usize, h: &str) -> String {
+        let st0: Arc<WalStore<Bag>> = Arc::new(WalStore::create(&self.storage, WNS).expect("wal store"));
+        let st1: Arc<WalStore<Bag>> = Arc::new(WalStore::create(&self.storage, WNS).expect("wal store"));
+        self.apply_fault();
+        let hd = handle(h);
+        if st0.add(&hd, Bag { revision: 0, items: Default::default() }).is_err() {
+            return "ret=err:add".into();
+        }
+        lockpoint::enable(true);
+        let _guard = TraceGuard;
+        let stop = Arc::new(std::sync::atomic::AtomicBool::new(false));
+        let barrier = Arc::new(Barrier::new(threads + 1));
+        let snapper = {
+            let (st1, stop, barrier, hd) = (st1.clone(), stop.clone(), barrier.clone(), hd.clone());
+            let seed = self.scratch_seed ^ 0x5eed;
+            std::thread::spawn(move || {
+                lockpoint::set_thread(Some(99), seed);
+                barrier.wait();
+                let mut n = 0usize;
+                while !stop.load(std::sync::atomic::Ordering::SeqCst) {
+                    let _ = std::panic::catch_unwind(std::panic::AssertUnwindSafe(|| st1.update_snapshot(&hd)));
+                    n += 1;
+                    std::thread::yield_now();
+                }
+                lockpoint::set_thread(None, 0);
+                n
+            })
+        };
+        let joins: Vec<_> = (0..threads)
+            .map(|k| {
+                let (st0, barrier, hd) = (st0.clone(), barrier.clone(), hd.clone());
+                let seed = self.scratch_seed ^ ((k as u64 + 1) << 16);
+                std::thread::spawn(move || {
+                    lockpoint::set_thread(Some(k as u32 + 1), seed.wrapping_mul(0x9E37_79B9_7F4A_7C15));
+                    barrier.wait();
+                    let mut acked: Vec<u64> = Vec::new();
+                    for r in 0..rounds {
+                        lockpoint::set_op(r as u64);
+                        let item = (k as u64 + 1) * 100_000 + r as u64;
+                        let res = std::panic::catch_unwind(std::panic::AssertUnwindSafe(|| {
+                            st0.send_command(BagCmd { handle: hd.clone(), kind: BagKind::Put(item) }).is_ok()
+                        }))
+                        .unwrap_or(false);
+                        if res {
+                            acked.push(item);
+                        }
+                    }
+                    lockpoint::set_thread(None, 0);
+                    acked
+                })
+            })
+            .collect();
+        let acked: Vec<u64> = joins.into_iter().flat_map(|j| j.join().expect("thread")).collect();
+        stop.store(true, std::sync::atomic::Ordering::SeqCst);
+        let _ = snapper.join();
+        let _ = lockpoint::take_log();
+        let count = |b: &Result<Arc<Bag>, BagError>| match b {
+            Ok(b) => (acked.iter().filter(|x| b.items.contains(x)).count(), b.items.len(), b.revision),
+            Err(_) => (0, 0, 0),
+        };
+        let live = count(&st0.get_latest(&hd));
+        let fresh_store: WalStore<Bag> = WalStore::create(&self.storage, WNS).expect("fresh wal store");
+        let fresh = count(&fresh_store.get_latest(&hd));
+        format!(
+            "ret=ok acks={} live={} fresh={} extra={} rev={} freshrev={}",
+            acked.len(), live.0, fresh.0, (live.1 - live.0) + (fresh.1 - fresh.0), live.2, fresh.2
+        )
+    }
+
     fn wfresh(&self, h: &str) -> String {
         let st: WalStore<Bag> = WalStore::create(&self.storage, WNS).expect("fresh wal store");
         self.apply_fault();
@@ -394,6 +468,7 @@ impl<const IV: u64> Sys<IV> {
             ["conclog", _] => "ev=-".into(),
             // C07: `threads` threads, released together, each send an init command for the same new handle
             // `<h><round>`, `rounds` times over (a self-contained concurrent op: replays like any other)
+            ["racewal", threads, rounds, h] => self.race_wal(threads.parse().expect("threads"), rounds.parse().expect("rounds"), h),
             ["raceadd", threads, rounds, h] => self.race_add(threads.parse().expect("threads"), rounds.parse().expect("rounds"), h),
             // not generated, no model: manual experiments only (`AggregateStore::warm` / `list`)
             ["warm", i] => {
